@@ -9,13 +9,15 @@ open PsdVerif PsdVerif.Codec
 
 /-! ## channel data -/
 
-theorem readPy_refreshed (n : Nat) : readPy (((2 + n : Nat) : Int) - 2) = readUpTo n := by
+theorem readPy_refreshed (n : Nat) {d : B} {p : Nat} (h : p + n ≤ d.length) :
+    readPy (((2 + n : Nat) : Int) - 2) d p = readUpTo n d p := by
   have e : (((2 + n : Nat) : Int) - 2) = (n : Int) := by omega
   rw [e]
   unfold readPy
   have : ¬ ((n : Int) < 0) := by omega
   rw [if_neg this]
-  simp
+  simp only [Int.toNat_natCast]
+  rw [if_neg (not_overflows_of_le (by omega))]
 
 theorem ChannelData.length_encT (c : ChannelData) : c.encT.length = 2 + c.data.length := by
   simp [ChannelData.encT, length_beBytes]
@@ -28,7 +30,8 @@ theorem ChannelData.dec_at {c : ChannelData} (hwf : c.WF) {d : B} {p : Nat} (hat
   obtain ⟨e1, hat⟩ := readU_step hat (hc _ hwf)
   have e2 := readUpTo_at hat
   have hwf' : c.compression ∈ G.compressions := hwf
-  simp only [ChannelData.dec, bind, Except.bind, e1, readPy_refreshed, e2, Nat.add_assoc]
+  have e2' := readPy_refreshed c.data.length (d := d) (p := p + 2) hat.bound
+  simp only [ChannelData.dec, bind, Except.bind, e1, e2', e2, Nat.add_assoc]
   rw [if_pos hwf']
 
 theorem ChannelData.encP_eq (c : ChannelData) : c.encP = (c.encT, c.encT.length) := by
@@ -201,12 +204,14 @@ theorem LayerInfo.dec_step {v pad : Nat} {li : LayerInfo} (hwf : li.WF v pad) {d
   · simp only [h0, if_true] at hwf hat ⊢
     have hpos : (0 : Nat) < 256 ^ secW v := Nat.pow_pos (by decide)
     have e1 := readU_at hat hpos
+    have hno : ¬ overflows (p + secW v) d :=
+      not_overflows_of_le (by have := hat.bound; simp only [length_beBytes] at this; omega)
     obtain ⟨n, rs, css⟩ := li
     simp only at h0 hwf
     obtain ⟨rfl, rfl⟩ := hwf
     subst h0
     simp only [LayerInfo.dec, bind, Except.bind, e1, if_true, LayerInfo.refresh, length_beBytes, Nat.add_zero,
-      Nat.le_refl]
+      Nat.le_refl, if_neg hno]
   · simp only [h0, if_false] at hwf hat ⊢
     obtain ⟨n, rs, css⟩ := li
     simp only at h0 hwf hat ⊢
@@ -250,6 +255,8 @@ theorem LayerInfo.dec_step {v pad : Nat} {li : LayerInfo} (hwf : li.WF v pad) {d
           simp only [zeros, List.replicate_zero, List.nil_append, List.append_assoc] at hat
           obtain ⟨e1, hat⟩ := readU_step hat g4
           have hat := hat.left
+          have hno : ¬ overflows (p + secW v + body.length) d :=
+            not_overflows_of_le (by have := hat.bound; omega)
           rw [hbody] at hat
           obtain ⟨e2, hat⟩ := readI16_step hat g1
           obtain ⟨e3, hat⟩ := readCount_step (LayerRecord.dec v) (LayerRecord.encT v) (r1 :: R1)
@@ -257,11 +264,13 @@ theorem LayerInfo.dec_step {v pad : Nat} {li : LayerInfo} (hwf : li.WF v pad) {d
           rw [hRlen] at e3
           have e4 := channelImageDec_at (r0 :: rs0) (c0 :: css0) hshape hch hat.left
           rw [hR] at e4
-          simp only [LayerInfo.dec, LayerInfo.bodyDec, bind, Except.bind, e1, if_neg hne, e2, e3, e4]
+          have hnc : LayerInfo.normCount0 ⟨n, some (r1 :: R1), some (c0 :: css0)⟩ =
+              ⟨n, some (r1 :: R1), some (c0 :: css0)⟩ := by simp [LayerInfo.normCount0, h0]
+          simp only [LayerInfo.dec, LayerInfo.bodyDec, bind, Except.bind, e1, if_neg hne, e2, e3, e4, hnc]
           have hle : p + secW v + 2 + (listT (LayerRecord.encT v) (r1 :: R1)).length +
               (channelImageT (c0 :: css0)).length ≤ p + secW v + body.length := by
             rw [hbody]; simp only [List.length_append, length_i16T]; omega
-          rw [if_pos hle]
+          rw [if_pos hle, if_neg hno]
           simp only [length_lenBlockT, padAmount_one]
           congr 2
           omega
@@ -374,28 +383,30 @@ theorem LayerAndMask.length_encT (v pad : Nat) (x : LayerAndMask) :
     (x.encT v pad).length = secW v + (x.bodyT v pad).length := by
   simp only [LayerAndMask.encT, length_lenBlockT, padAmount_one]; omega
 
-/-- `LayerAndMaskInformation.read` on the main stream. The section is followed by at least
-`follow ≥ 1` more bytes (the image data); the reader's `is_readable` probes look at them. -/
-theorem LayerAndMask.dec_at {v pad follow : Nat} {x : LayerAndMask} (hwf : x.WF v pad follow) {d : B} {p : Nat}
-    (hat : At d p (x.encT v pad)) (hfol : p + (x.encT v pad).length + follow ≤ d.length) (hf1 : 1 ≤ follow) :
+/-- `LayerAndMaskInformation.read` on the main stream, wherever the section sits: the reader's gates look at
+the section only (`fp.tell() + 4 <= end_pos`, `fp.tell() < end_pos`). -/
+theorem LayerAndMask.dec_at {v pad : Nat} {x : LayerAndMask} (hwf : x.WF v pad) {d : B} {p : Nat}
+    (hat : At d p (x.encT v pad)) :
     LayerAndMask.dec v d p = .ok (x.refresh, p + (x.encT v pad).length) := by
   have hw := secW_pos v
   obtain ⟨⟨_, _, _, hfb⟩, hrest⟩ := hwf
-  rw [LayerAndMask.length_encT] at hfol ⊢
+  rw [LayerAndMask.length_encT]
   unfold LayerAndMask.encT lenBlockT at hat
   simp only [zeros, List.replicate_zero, List.nil_append, List.append_assoc] at hat
   obtain ⟨e1, hat⟩ := readU_step hat hfb
   have hat := hat.left
+  have hno : ¬ overflows (p + secW v + (x.bodyT v pad).length) d :=
+    not_overflows_of_le (by have := hat.bound; omega)
   obtain ⟨li, g, ts⟩ := x
   simp only at hrest
   cases li with
   | none =>
     obtain ⟨rfl, rfl⟩ := hrest
-    simp only [LayerAndMask.dec, bind, Except.bind, e1]
+    simp only [LayerAndMask.dec, bind, Except.bind, e1, if_neg hno]
     simp [LayerAndMask.bodyT, optT', LayerAndMask.refresh]
   | some li =>
     simp only at hrest
-    obtain ⟨hli, hg, hts, hgt, hgate⟩ := hrest
+    obtain ⟨hli, hg, hts, hgt⟩ := hrest
     have hbody : LayerAndMask.bodyT v pad ⟨some li, g, ts⟩ =
         li.encT v pad ++ (optT' GlobalLayerMaskInfo.encT g ++ optT' (taggedBlocksT v 4) ts) := by
       simp only [LayerAndMask.bodyT, optT', List.append_assoc]
@@ -412,52 +423,24 @@ theorem LayerAndMask.dec_at {v pad follow : Nat} {x : LayerAndMask} (hwf : x.WF 
     | none => simp at hts
     | some ts =>
       simp only at hts
-      simp only [optT'] at hat hblen hgate
+      simp only [optT'] at hat hblen
       cases g with
       | none =>
         have : ts = [] := by simpa using hgt rfl
         subst this
         simp only [optT', taggedBlocksT, listT, List.length_nil, Nat.add_zero] at hat hblen
-        have hpe : p + secW v + (li.encT v pad).length = p + secW v + body.length := by omega
-        have hg17 : (isReadable 17 d (p + secW v + (li.encT v pad).length) &&
-            decide (p + secW v + (li.encT v pad).length < p + secW v + body.length)) = false := by
-          rw [hpe]; simp
-        have hr1 : isReadable 1 d (p + secW v + (li.encT v pad).length) = true := by
-          simp only [isReadable, decide_eq_true_eq]; omega
-        have e3 : taggedBlocksDec v 4 (some (p + secW v + body.length)) d (p + secW v + (li.encT v pad).length) =
-            .ok ([], p + secW v + (li.encT v pad).length + (taggedBlocksT v 4 []).length) := by
-          apply taggedBlocksDec_at (Or.inr (Or.inr rfl)) hts (some _)
-          · simpa [taggedBlocksT, listT] using hat.left
-          · intro e he; cases he; simp only [taggedBlocksT, listT, List.length_nil]; omega
-          · simp only [taggedCond, taggedBlocksT, listT, List.length_nil, Nat.add_zero, hpe]
-            simp
-        simp only [LayerAndMask.dec, LayerAndMask.bodyDec, bind, Except.bind, e1, if_neg hne, e2]
-        simp only [hg17, Bool.false_eq_true, if_false, hr1, if_true, optItem, e3]
+        have hgate : ¬ (p + secW v + (li.encT v pad).length + 4 ≤ p + secW v + body.length) := by omega
+        simp only [LayerAndMask.dec, LayerAndMask.bodyDec, bind, Except.bind, e1, if_neg hne, e2, if_neg hgate,
+          if_neg hno]
         simp [LayerAndMask.refresh, Nat.add_assoc]
       | some g =>
         simp only [optProp] at hg
-        simp only [optT'] at hat hblen hgate
+        simp only [optT'] at hat hblen
         have hgl := g.length_encT hg.2.1
-        have hg17 : (isReadable 17 d (p + secW v + (li.encT v pad).length) &&
-            decide (p + secW v + (li.encT v pad).length < p + secW v + body.length)) = true := by
-          have h17 : isReadable 17 d (p + secW v + (li.encT v pad).length) = true := by
-            simp only [isReadable, decide_eq_true_eq]
-            cases ho : g.overlayColor with
-            | none =>
-              have := hgate ho
-              simp only [ho, Option.isSome_none] at hgl
-              simp only [Bool.false_eq_true, if_false] at hgl
-              omega
-            | some cs =>
-              simp only [ho, Option.isSome_some, if_true] at hgl
-              omega
-          have hlt : p + secW v + (li.encT v pad).length < p + secW v + body.length := by
-            have : 4 ≤ g.encT.length := by rw [hgl]; split <;> omega
-            omega
-          simp [h17, hlt]
+        have hgate : p + secW v + (li.encT v pad).length + 4 ≤ p + secW v + body.length := by
+          have : 4 ≤ g.encT.length := by rw [hgl]; split <;> omega
+          omega
         obtain ⟨e3, hat⟩ := GlobalLayerMaskInfo.dec_step hg hat
-        have hr1 : isReadable 1 d (p + secW v + (li.encT v pad).length + g.encT.length) = true := by
-          simp only [isReadable, decide_eq_true_eq]; omega
         have hpe : p + secW v + (li.encT v pad).length + g.encT.length + (taggedBlocksT v 4 ts).length =
             p + secW v + body.length := by omega
         have e4 : taggedBlocksDec v 4 (some (p + secW v + body.length)) d
@@ -466,8 +449,8 @@ theorem LayerAndMask.dec_at {v pad follow : Nat} {x : LayerAndMask} (hwf : x.WF 
           apply taggedBlocksDec_at (Or.inr (Or.inr rfl)) hts (some _) hat.nil_right.left
           · intro e he; cases he; omega
           · simp only [taggedCond, hpe]; simp
-        simp only [LayerAndMask.dec, LayerAndMask.bodyDec, bind, Except.bind, e1, if_neg hne, e2]
-        simp only [hg17, if_true, optItem, e3, hr1, e4]
+        simp only [LayerAndMask.dec, LayerAndMask.bodyDec, bind, Except.bind, e1, if_neg hne, e2, if_pos hgate, e3, e4,
+          if_neg hno]
         simp [LayerAndMask.refresh, Nat.add_assoc]
 
 /-! ## the whole file -/
@@ -499,7 +482,7 @@ theorem PSD.read_encT {pad : Nat} {x : PSD} (hwf : x.WF pad) :
   have e3 := resourcesDec_at hr hat.left
   have hat := hat.right
   have hil := x.imageData.length_encT
-  have e4 := LayerAndMask.dec_at hl hat.left (by omega) (by omega)
+  have e4 := LayerAndMask.dec_at hl hat.left
   have hat := hat.right
   have e5 := ImageData.dec_at_end hi hat (by omega)
   simp only [PSD.read, bind, Except.bind, e1, e2, e3, e4, e5]
